@@ -870,7 +870,8 @@ def write_cache_entry(
             entry.mode,
             entry.uid,
             entry.gid,
-            entry.size,
+            # like git, the index records the low 32 bits of the size
+            entry.size & 0xFFFFFFFF,
             hex_to_sha(entry.sha),
             flags,
         )
